@@ -99,7 +99,7 @@ def run_case(ctx, case, reps) -> None:
             if isinstance(r, str):
                 ctx.count("registered_computers_used")
                 r = int(r)
-            g = sut.object_for_case(ctx, case, comp, key=("sam", r))
+            g = sut.object_for_case(ctx, case, comp, key=("sam", r), p_reuse=1.0 if case.get("_force_reuse") else 0.5)
             if case.get("dirty"):
                 # reach K through a history that leaves stale garbage in the unknown rows
                 boundcore.apply_ops(g, values, boundcore.make_history(ctx.rng, n, K, "dirty"))
@@ -167,6 +167,11 @@ def run(ctx) -> None:
     for _ in range(2):
         fam0, v0, e0 = registered_game(ctx, 4)
         run_case(ctx, {"n": 4, "family": fam0, "values": v0, "exact": e0, "K": gen.random_knowledge_set(rng, 4)}, [0, 1, 2, "1", "10"])
+    # guaranteed minimum: the SAME objects are re-initialised (bulk reset) for other hidden games, low values first
+    for fam0 in ("sam_offset_int", "sam_int", "sam_float", "sam_int"):
+        v0, e0 = gen.sam_game(rng, 4, fam0)
+        run_case(ctx, {"n": 4, "family": fam0, "values": v0, "exact": e0, "K": gen.random_knowledge_set(rng, 4), "_force_reuse": True},
+                 [0, 1, 2, "1", "10"])
     # exhaustive K for n = 3 (8 sets) on several games and n = 4 (1024 sets) on one game, r in {0,1,2,10}
     for fam in (["sam_int", "sam_float"] if quick else list(gen.SAM_FAMILIES)):
         values, exact = gen.sam_game(rng, 3, fam)
